@@ -210,3 +210,52 @@ class chunks_match_rank2:
             for y in cs:
                 yield {"a": (x, (2, 1)), "b": (y, (2, 1))}
                 yield {"a": ((1,), x), "b": ((1,), y)}
+
+
+# ---------------------------------------------------------------------------
+# C20: the grid-preservation gate of pushdowns
+# ---------------------------------------------------------------------------
+def _m_has_grid_sensitive(ex, st, base, args, kwargs, node):
+    """self._has_grid_sensitive_dependent(parent, dependents): some boolean (a walk over the dependents)"""
+    v = ex.fresh_value("bool", "grid_sensitive")
+    st.env["__grid_sensitive__"] = v
+    return v
+
+
+def _ext_getattr(ex, st, args, kwargs, node):
+    """getattr(obj, "chunks", None) on an expression record: its chunks field (expressions always have chunks)"""
+    from pyvc.spec import StrV
+    if len(args) >= 2 and isinstance(args[1], StrV) and args[1].s == "chunks" and isinstance(args[0], ObjV):
+        return args[0].get("chunks") if False else ex.obj_field(args[0], "chunks", node)
+    raise Exception("unsupported getattr")
+
+
+def _grid_gate(spec, maybe_blockwise):
+    @contract(f"{EXPR}::ArrayExpr._preserve_grid_contract", spec=spec, props=["C20"])
+    class preserve_grid_contract:
+        """when a dependent is grid-sensitive (a block_info / block_id consumer without alignment), a pushdown's result is
+        let through only if it keeps the parent's chunks exactly -- otherwise the rewrite is declined (None); without such
+        a dependent the result is handed back as it is"""
+        params = {"self": "obj:Node", "parent": "obj:Expr", "result": "obj:Expr", "dependents": "obj:Deps"}
+        result = None
+        fields = {"Node": {}, "Expr": {"chunks": "abs:Chunks"}, "Deps": {},
+                  "__maybe__": ({"Node": ["Blockwise"]} if maybe_blockwise else {})}
+        methods = {"Node._has_grid_sensitive_dependent": _m_has_grid_sensitive}
+        externals = {"getattr": _ext_getattr}
+
+        def requires(self, parent, result, dependents):
+            return True
+
+        def ensures(result, self, parent, result_arg, dependents, env=None, calls=None):
+            g = env.__getattr__("__grid_sensitive__")
+            if isinstance(result, ObjV):
+                return {"returns-the-pushdown-result-itself": result is result_arg,
+                        "grid-sensitive-dependent-keeps-the-parent-grid": S.Implies(g, result.get("chunks") == parent.get("chunks"))}
+            return {"declines-only-for-a-grid-sensitive-dependent": g}
+
+    preserve_grid_contract.__name__ = "preserve_grid_contract_" + spec.replace("-", "_")
+    return preserve_grid_contract
+
+
+GG1 = _grid_gate("plain-node", False)
+GG2 = _grid_gate("maybe-blockwise", True)
